@@ -70,7 +70,7 @@ theorem c20_calls (P : Prims) (fs : FS) :
     (frender P stdOut {} fs 1 [.text 1 [97, 32], .trim true, .obj 1 (.var [120]), .text 1 [98]] []).calls = [[97], [98]] := by
   simp [frender, renderRoot, renderList, renderNode, wrapFailAt, M.mapFail, M.bind, M.pure, M.getEnv, M.ofRes, writeM, trimLeftM,
     flushM, Prog.bind, Prog.mapFail, Prog.calls, statusToProg, bind, pure, mkCtx, evaluate, eval, Env.get, GoVal.toLiquid,
-    GoVal.unwrap, GoVal.isNil, stdOut, stdChunks, writeChunksL, writeAllM]
+    GoVal.unwrap, GoVal.isNil, stdOut, stdChunks, writeChunksL, writeAllM, writeVerbatimM]
   rfl
 
 /-- a writer failing at the second call after accepting nothing has accepted `a`, a prefix of `ab` -/
